@@ -22,19 +22,21 @@ META = {
         "predicate-tree compiler itself is not modelled, so the equality of the two paths is explored, not proved"
     ),
     "design_ref": "DESIGN.md §5 C27",
-    "lean_modules": ["XdslProofs.C27"],
+    "lean_modules": ["XdslProofs.C27", "XdslProofs.C27Drive"],
     "text": "filled in below",
-    "technique": "Lean 4 proofs about a specification-level PDL denotation + three-way differential testing "
-                 "(interpreted path, compiled path, Lean specification; independent Python reference as arbiter)",
+    "technique": "Lean 4 proofs about a specification-level PDL denotation and a model of the greedy driver + three-way "
+                 "differential testing (interpreted path, compiled path, Lean specification; independent Python reference "
+                 "as arbiter), single rewrites and whole passes",
     "level_note": "filled in below",
     "rule": "filled in below",
     "trusted_base": [
         "hand-written Lean specification XdslModel/PDL.lean (tied to both real paths by correspondence on every probed operation)",
-        "independent Python reference matcher/rewriter harness/props/c27_pdl.py (ref_match/ref_apply), the arbiter when the paths differ",
+        "independent Python reference matcher/rewriter/driver harness/props/c27_pdl.py (ref_match/ref_apply/ref_drive), the arbiter when the paths differ",
         "canonicalisation of payload blocks (c27_pdl.canon_block) and the MLIR text emitters for patterns and payloads",
     ],
     "assumptions": [
         "partial claim: the predicate-tree compiler and the pdl_interp interpreter are not modelled; equality of the two paths is tested, not proved",
+        "the Lean model of PatternRewriteWalker (driveW) is tied to both real passes by correspondence on generated payloads only (flat blocks, default walker configuration, ops that are never trivially dead)",
     ],
     "budget": {"quick": 45, "thorough": 900},
 }
@@ -44,6 +46,8 @@ SITE1R = "xdsl.interpreters.pdl.PDLRewriteFunctions"
 SITE2 = "xdsl.transforms.convert_pdl_to_pdl_interp.conversion.ConvertPDLToPDLInterpPass"
 SITE2I = "xdsl.interpreters.pdl_interp.PDLInterpFunctions"
 SITE_BOTH = "xdsl.transforms.apply_pdl_interp.ApplyPDLInterpPass"
+SITE_PASS = {"pdl": "xdsl.transforms.apply_pdl.ApplyPDLPass", "pdl_interp": "xdsl.transforms.apply_pdl_interp.ApplyPDLInterpPass"}
+DRIVE_FUEL = 400
 
 
 # ---------------------------------------------------------------------------------------------
@@ -118,6 +122,8 @@ class Case:
         self.after: dict[str, list[Any]] = {"pdl": [], "pdl_interp": []}
         self.bind1: list[Any] = []
         self.walk: dict[str, str] = {}
+        self.walk_after: dict[str, Any] = {}     # canonical abstract payload behind each entry of `walk` (flat blocks)
+        self.drive: Any = None                   # reference driver on the payload: abstract payload | "error" | "fuel" | None (not run)
         self.ref: list[tuple[str, Any, Any]] = []
         self.why: list[str] = []
 
@@ -171,7 +177,32 @@ def observe(case: Case, walker: bool = True, passes: bool = False) -> Case:
         # apply-pdl (only) erases trivially dead ops while it walks: compared only on payloads/patterns without pure ops
         if not any(w in case.ptext + case.pl_text for w in ("pureop", "memread", "arith.")):
             case.walk.update(run_passes(case))
+            case.drive = reference_drive(case)
     return case
+
+
+def drivable(case: Case) -> bool:
+    """the reference driver (and the Lean model `driveW`) speak about the payload block only: the pattern must not be
+    able to match the module, the wrapper op or the terminator (ops without operands and results), and the rewrite
+    must not create ops of real dialects (default properties, verifiers)"""
+    if case.p is None or case.pl is None or not case.p["ops"]:
+        return False
+    root = case.p["ops"][-1]
+    if not root["operands"] and not root["results"]:
+        return False
+    return not any(a[0] == "op" and not a[1].startswith("test.") and P.canon_opname(a[1]) != "builtin.unregistered"
+                   for a in case.p["rw"])
+
+
+def reference_drive(case: Case) -> Any:
+    if not drivable(case):
+        return None
+    try:
+        return P.ref_drive(case.p, case.pl, fuel=DRIVE_FUEL)
+    except P.RefError:
+        return "error"
+    except P.DriveFuel:
+        return "fuel"
 
 
 class PassTimeout(Exception):
@@ -204,6 +235,16 @@ class time_limit:
         return False
 
 
+def _canon_or_none(module) -> dict | None:
+    try:
+        block = default_locate(module)
+        if any(o.regions for o in block.ops):
+            return None
+        return P.canon_block(block)
+    except Exception:  # noqa: BLE001
+        return None
+
+
 def run_passes(case: Case) -> dict[str, str]:
     """the passes exactly as xdsl-opt runs them: apply-pdl{pdl_file=…} versus convert-pdl-to-pdl-interp on the pattern
     file followed by apply-pdl-interp{pdl_interp_file=…}.  Only used when the walker runs terminated."""
@@ -221,6 +262,7 @@ def run_passes(case: Case) -> dict[str, str]:
                 ApplyPDLPass(pdl_file=f1).apply(ctx, m1)
             m1.verify()
             out["pass:pdl"] = P.module_text(m1)
+            case.walk_after["pass:pdl"] = _canon_or_none(m1)
         except Exception as e:  # noqa: BLE001
             out["pass:pdl"] = P.exc_obs(e)
         try:
@@ -234,6 +276,7 @@ def run_passes(case: Case) -> dict[str, str]:
                 ApplyPDLInterpPass(pdl_interp_file=f2).apply(ctx, m2)
             m2.verify()
             out["pass:pdl_interp"] = P.module_text(m2)
+            case.walk_after["pass:pdl_interp"] = _canon_or_none(m2)
         except Exception as e:  # noqa: BLE001
             out["pass:pdl_interp"] = P.exc_obs(e)
     return out
@@ -285,6 +328,8 @@ def differences(case: Case) -> list[dict]:
                         "pdl_c": a, "pdl_interp_c": b, "ref": ref_obs(case, i), "why": case.why[i] if case.why else ""})
     if out or any_ill or unsupported:
         return out          # greedy application cannot agree when a probe differs / is meaningless on ill-formed rewrites
+    if case.drive == "error":
+        return out          # the greedy walk itself arrives at an ill-formed rewrite (on a payload it produced)
     for pre in ("", "pass:"):
         if pre + "pdl" in case.walk:
             a, b = _cls(case.walk[pre + "pdl"]), _cls(case.walk[pre + "pdl_interp"])
@@ -314,6 +359,25 @@ def classify(case: Case, d: dict) -> tuple[str, str, str]:
     """(call_site, signature, description) of a difference; the reference decides which side is wrong"""
     if d["where"] != "op":
         kind = "the passes apply-pdl / apply-pdl-interp" if d["where"].startswith("pass:") else "greedy application (PatternRewriteWalker)"
+        if d["where"].startswith("pass:"):
+            # arbiters: the reference driver (specification of one rewrite + PatternRewriteWalker's default walk) and the
+            # same pattern object driven by a default PatternRewriteWalker in the harness
+            verdict = {}
+            for name in ("pdl", "pdl_interp"):
+                after = case.walk_after.get("pass:" + name)
+                got = P.canon_line(after) if after is not None else _cls(case.walk.get("pass:" + name, ""))
+                if isinstance(case.drive, dict):
+                    verdict[name] = got == P.canon_line(case.drive)
+                elif name in case.walk:
+                    verdict[name] = _cls(case.walk["pass:" + name]) == _cls(case.walk[name])
+            wrong = [n for n, ok in verdict.items() if not ok]
+            if len(verdict) == 2 and len(wrong) == 1:
+                n = wrong[0]
+                pname = "apply-pdl" if n == "pdl" else "apply-pdl-interp"
+                return (SITE_PASS[n], f"the pass {pname} does not drive the pattern like a default PatternRewriteWalker "
+                                      "(program order, worklist, to a fixpoint); the other pass does",
+                        f"{pname} ends with another payload than greedy application of the same pattern in program order; "
+                        "every single-operation probe agrees on the two paths, the other pass agrees with the reference driver")
         return (SITE_BOTH, kind + " differs although every single-operation probe agrees",
                 kind + " gives different payloads on the two paths")
     ref = d["ref"]
@@ -364,6 +428,8 @@ def lean_lines(case: Case) -> tuple[list[str], P.Interner]:
     lines = ["reset", P.encode_pattern(case.p, I), P.encode_ir(case.pl, I)]
     for i in range(case.n):
         lines += [f"match {i}", f"apply {i}"]
+    if case.drive is not None:
+        lines.append(f"drive {DRIVE_FUEL}")
     return lines, I
 
 
@@ -463,7 +529,7 @@ def still_differs(p: dict | None, ptext: str, pl: dict, sig: tuple[str, str], op
         return False
     try:
         c = Case(p, P.pattern_text(p) if p is not None else ptext, P.payload_text(pl), "shrink")
-        observe(c, walker=op is None)
+        observe(c, walker=op is None, passes=op is None)
     except Exception:  # noqa: BLE001
         return False
     for d in differences(c):
@@ -480,23 +546,27 @@ def report(ctx: core.Ctx, case: Case, d: dict) -> None:
     op = d.get("op")
     if pl is not None and not case.origin.startswith("regression"):      # regression inputs are minimal already
         try:
-            pl, op = G.shrink_payload(pl, lambda c, k: still_differs(p, case.ptext, c, (site, sig), k), op)
+            # (differences of greedy application need the walkers and the passes for every candidate: smaller budgets)
+            b1, b2 = (200, 120) if op is not None else (60, 40)
+            pl, op = G.shrink_payload(pl, lambda c, k: still_differs(p, case.ptext, c, (site, sig), k), op, b1)
             if p is not None:
-                p = G.shrink_pattern(p, lambda q: still_differs(q, "", pl, (site, sig), op))
-                pl, op = G.shrink_payload(pl, lambda c, k: still_differs(p, case.ptext, c, (site, sig), k), op)
+                p = G.shrink_pattern(p, lambda q: still_differs(q, "", pl, (site, sig), op), b2)
+                pl, op = G.shrink_payload(pl, lambda c, k: still_differs(p, case.ptext, c, (site, sig), k), op, b1)
         except Exception:  # noqa: BLE001
             p, pl, op = case.p, case.pl, d.get("op")
     small = Case(p, P.pattern_text(p) if p is not None else case.ptext, P.payload_text(pl) if pl is not None else case.pl_text, case.origin)
     try:
-        observe(small)
+        observe(small, passes=d["where"].startswith("pass:"))
     except Exception:  # noqa: BLE001
         small = case
     dd = next((x for x in differences(small) if classify(small, x)[:2] == (site, sig)), d)
     body = case_json(small)
     body["probe_op"] = dd.get("op")
+    expected: dict = {"reference": dd.get("ref")}
+    if dd["where"] != "op" and small.drive is not None:
+        expected = {"reference_driver": P.canon_line(small.drive) if isinstance(small.drive, dict) else small.drive}
     ctx.fail(site, sig, body, desc,
-             {"pdl": dd.get("pdl"), "pdl_interp": dd.get("pdl_interp")},
-             {"reference": dd.get("ref")})
+             {"pdl": dd.get("pdl"), "pdl_interp": dd.get("pdl_interp")}, expected)
 
 
 def check_case(ctx: core.Ctx, case: Case, lean_batch: list, passes: bool = False) -> None:
@@ -519,6 +589,16 @@ def check_case(ctx: core.Ctx, case: Case, lean_batch: list, passes: bool = False
     ctx.count("probes", case.n)
     if case.walk.get("pdl") == "raise StepLimit":
         ctx.count("walker.step-limit")
+    if matched >= 2:
+        ctx.count("case.match-sites>=2")
+    if "pass:pdl" in case.walk:
+        ctx.count("passes.compared")
+    if isinstance(case.drive, dict):
+        try:
+            if P.ref_drive(case.p, case.pl, reverse=True, fuel=DRIVE_FUEL) != case.drive:
+                ctx.count("drive.walk-order-observable")       # (a reverse walk would end elsewhere: the case can tell drivers apart)
+        except (P.RefError, P.DriveFuel):
+            ctx.count("drive.walk-order-observable")
     diffs = differences(case)
     seen = set()
     for d in diffs:
@@ -593,6 +673,50 @@ def run_lean(ctx: core.Ctx, batch: list[Case]) -> None:
             if " !dangling" in ga:
                 ctx.mismatch("correspondence:C27/apply_wf", {**case_json(c), "probe_op": i}, None, {"lean": ga},
                              "Lean apply produced a dangling use (contradicts apply_wf)")
+        if c.drive is not None:
+            check_drive(ctx, c, I, out[at + 3 + 2 * c.n])
+
+
+def check_drive(ctx: core.Ctx, c: Case, I: P.Interner, lean: str) -> None:
+    """greedy application: the Lean model of PatternRewriteWalker (`driveW`, XdslModel/PDL.lean) against the Python
+    reference driver and against BOTH real passes (where the passes agree with each other: a difference between them
+    is a failing input of the property already and was reported with the driver as arbiter)"""
+    ctx.count("drive.cases")
+    try:
+        ref = c.drive if isinstance(c.drive, str) else "done " + P.lean_ir_line(c.drive, I)
+    except KeyError:
+        ctx.count("drive.not-encodable")
+        return
+    if lean.replace(" !dangling", "") != ref:
+        ctx.mismatch("correspondence:C27/drive-vs-python-reference", case_json(c), {"reference": ref}, {"lean": lean},
+                     "Lean model of the walker (driveW) and the Python reference driver disagree")
+        return
+    if " !dangling" in lean:
+        ctx.mismatch("correspondence:C27/drive_closed", case_json(c), None, {"lean": lean},
+                     "Lean driveW produced a dangling use (contradicts drive_closed)")
+    if not lean.startswith("done "):
+        ctx.count("drive." + ("ill-formed-during-walk" if lean == "error" else "fuel"))
+        return                                   # outside the quantifier / not terminating within the fuel
+    if any(ill_formed(c, i) for i in range(c.n)):
+        ctx.count("drive.ill-formed-site")
+        return
+    obs = {}
+    for name in ("pdl", "pdl_interp"):
+        after = c.walk_after.get("pass:" + name)
+        try:
+            obs[name] = "done " + P.lean_ir_line(after, I) if after is not None else _cls(c.walk.get("pass:" + name, ""))
+        except KeyError:
+            ctx.count("drive.not-encodable")
+            return
+    if obs["pdl"] != obs["pdl_interp"]:
+        return
+    ctx.count("drive.compared-with-both-passes")
+    if c.drive != c.pl:
+        ctx.count("drive.payload-changed")
+    if obs["pdl"] != lean:
+        ctx.mismatch("correspondence:C27/drive-vs-passes", case_json(c), {"apply-pdl": obs["pdl"], "apply-pdl-interp": obs["pdl_interp"]},
+                     {"lean": lean}, "both passes end with the same payload, but not with the one the Lean model of "
+                     "PatternRewriteWalker (program order, worklist, use lists) computes")
 
 
 def generated_cases(ctx: core.Ctx, n: int, rich: bool = True, effect_only: bool = False):
@@ -611,6 +735,21 @@ def generated_cases(ctx: core.Ctx, n: int, rich: bool = True, effect_only: bool 
             for m in muts:
                 ctx.count("mutation." + m)
             yield Case(p, P.pattern_text(p), P.payload_text(pl), "generated")
+
+
+def chain_cases(ctx: core.Ctx, n: int):
+    """self-overlapping patterns on def-use chains: several overlapping match sites, order of application observable"""
+    rng = ctx.rng
+    for _ in range(n):
+        p = G.gen_chain_pattern(rng)
+        pl, muts = G.gen_chain_payload(rng, p)
+        if not G.payload_well_formed(pl):
+            ctx.count("gen.payload-ill-formed")
+            continue
+        ctx.count("gen.chain-pattern")
+        for m in muts:
+            ctx.count("mutation." + m)
+        yield Case(p, P.pattern_text(p), P.payload_text(pl), "generated:chain")
 
 
 def corpus_cases(ctx: core.Ctx, per_pattern: int):
@@ -731,6 +870,12 @@ def run(ctx: core.Ctx) -> None:
     for c in fixed_cases():
         check_case(ctx, c, batch, passes=True)
     ctx.extra["phase_s"] = {"lean+audit": round(t0 - ctx.t0, 1), "regression": round(time.time() - t0, 1)}
+    # a fixed number of chain cases (overlapping match sites, both real passes, reference driver), whatever the load
+    # of the machine does to the time-bounded phases below
+    t1 = time.time()
+    for c in chain_cases(ctx, 32 if quick else 400):
+        check_case(ctx, c, batch, passes=True)
+    ctx.extra["phase_s"]["chains"] = round(time.time() - t1, 1)
     t1 = time.time()
     for c in corpus_cases(ctx, 4 if quick else 25):
         check_case(ctx, c, batch, passes=c.origin.startswith("corpus") and "apply" in c.origin)
@@ -743,6 +888,8 @@ def run(ctx: core.Ctx) -> None:
         for c in generated_cases(ctx, 8):
             check_case(ctx, c, batch)
         for c in generated_cases(ctx, 2, effect_only=True):
+            check_case(ctx, c, batch, passes=True)
+        for c in chain_cases(ctx, 4):
             check_case(ctx, c, batch, passes=True)
         if len(batch) >= 400:
             run_lean(ctx, batch)
@@ -766,11 +913,19 @@ def replay(ctx: core.Ctx, body: dict) -> int:
                     print(f"      {name:10s} after: {P.canon_line(case.after[name][i])}")
     for k, v in case.walk.items():
         print(f"--- {k}:\n{v}")
+    if case.drive is not None:
+        print("--- reference driver (program order):", P.canon_line(case.drive) if isinstance(case.drive, dict) else case.drive)
+        for name in ("pdl", "pdl_interp"):
+            a = case.walk_after.get("pass:" + name)
+            if a is not None:
+                print(f"    pass {name:10s}               : {P.canon_line(a)}")
     if case.p is not None and case.pl is not None and case.ref:
         lines, I = lean_lines(case)
         out = ctx.model("pdl", lines)
         for i in range(case.n):
             print(f"lean op {i}: {out[3 + 2 * i]} | {out[4 + 2 * i]}   (reference: {expected_lean(case, I, i, 'ref')})")
+        if case.drive is not None:
+            print(f"lean driveW: {out[3 + 2 * case.n]}")
     ds = differences(case)
     for d in ds:
         print("DIFFERENCE:", classify(case, d)[:2], {k: v for k, v in d.items() if k in ("where", "op")})
@@ -797,7 +952,17 @@ META["text"] = (
     "arbitrates and names the violated constraint; the payloads after greedy application (PatternRewriteWalker with a step "
     "limit) and after the passes apply-pdl{pdl_file} vs convert-pdl-to-pdl-interp + apply-pdl-interp{pdl_interp_file} are "
     "compared between the paths. Nine defects found this way are repaired in /repo (regression inputs in harness/corpus/C27 are "
-    "replayed first on every run); two known findings remain (see known_findings.json)."
+    "replayed first on every run); two known findings remain (see known_findings.json). "
+    "DRIVER: XdslModel/PDL.lean also models PatternRewriteWalker on a block of region-free ops (driveWith / driveW: worklist "
+    "as a LIFO stack without duplicates, populate in program or reverse order, listener pushes of created ops / users of "
+    "replaced results / modified ops / single-use producers of an erased op, use lists newest-first) on top of the "
+    "specification of one rewrite. XdslProofs/C27Drive.lean: drive_congr (matchers that agree on every (payload, op) give the "
+    "same result under the same walker), drive_reach / drive_closed / drive_normal (every walk order: the result is reached "
+    "by rewrites of the pattern alone, has no dangling uses, and no op of it matches any more), walk_order_observable "
+    "(chain_forward / chain_reverse: program order and reverse order end with different payloads for root(prod(x)) -> x on a "
+    "chain, so the drivers of the two passes must agree for the property to hold). Per run the passes apply-pdl and "
+    "convert-pdl-to-pdl-interp + apply-pdl-interp themselves are run on def-use chains of overlapping match sites of "
+    "self-overlapping, non-confluent patterns and compared with each other, with the Python reference driver and with driveW."
 )
 META["level_note"] = (
     "The predicate-tree compiler (conversion.py, 2.6k lines) and the pdl_interp interpreter are modelled by nothing; the "
@@ -813,7 +978,12 @@ META["level_note"] = (
     "constraints/rewrites, several roots, ranges) get a shape-following payload and no reference opinion; an exception on "
     "either side is counted as unsupported there. Rewrites that create ops of real dialects (arith…) are compared between "
     "the paths in full but with the specification only on the match (default properties, dialect verifiers). Greedy "
-    "application is cut after a step limit (both paths hitting it = non-terminating rule, counted). Not proved: preservation "
+    "application is cut after a step limit (both paths hitting it = non-terminating rule, counted); a greedy walk that "
+    "arrives at an ill-formed rewrite on a payload it produced itself (the reference driver says so) is outside the quantifier "
+    "like an ill-formed probe. The reference driver / driveW speak about the payload block only: patterns whose root has "
+    "neither operands nor results (could match the module, the wrapper op or the terminator) are compared between the passes "
+    "but not with the driver model. walk_regions_first and nested payload regions are not exercised (payload ops have no "
+    "regions). Not proved: preservation "
     "of dominance order by rewrites (false for replacements of non-root ops, which xDSL does not check either), totality of "
     "the binding on all pattern nodes."
 )
@@ -826,6 +996,17 @@ META["rule"] = (
     "mutations (attribute value/type/missing/renamed/moved to a property, operand dropped/added/other defining op/other result "
     "of the same op/same value twice/block argument, result type, extra result, op name), consumers and noise; corpus = every "
     "pdl.pattern of tests/filecheck/**, docs/** and tests/**/*pdl*.py with the file's own payload and generated ones; "
+    "chain family (a fixed number per run, then mixed in): SELF-OVERLAPPING patterns (2–3 pdl.operation nodes of the same "
+    "name / arity / result count / attribute constraint linked through pdl.result, attribute constraint on all / only "
+    "producers / only the root) with rewrites whose order of application is observable (root replaced by a value from deeper "
+    "in the chain, by its producer's result, by a new op with another attribute value / name / operand count, by a new op "
+    "over deeper operands that matches again, root + producer replaced or erased, random); payload = def-use chains and trees "
+    "whose links are overlapping instances (the previous root instance is the producer of the next root; fan-out; near-miss "
+    "links; one or two chains; effectful sinks; STACK mode (3 of 10): the root is told from its producers by name or by an "
+    "attribute only it demands, the rewrite puts a new root one link deeper, the payload has stacks of producer-only links "
+    "under a root, so created ops match again and visiting created ops / walking to a fixpoint is observable), only ops "
+    "that are never trivially dead, run through both real passes; the "
+    "other generated payloads get overlapping instances with probability 0.3 per extra instance. "
     "regression = minimal failing inputs of the repaired defects and of the known findings. Non-trivial = at least one probed "
     "op matches and at least one does not; distinct = distinct (pattern, payload)."
 )
